@@ -185,9 +185,27 @@ func c11Overlap(r *ev.Run, p *c11Peer, srvIP netip.Addr, local *net.UDPAddr, keA
 		if r.Only() != "" && r.Only() != id {
 			continue
 		}
-		c := &client.IPClient{Log: log}
+		// variants: a client in interleaved mode makes up to three attempts per call, so that the call that
+		// outlived its round comes back to the fetcher; a key-exchange server that issues one cookie per
+		// exchange leaves the pool empty while the later round's request is in flight
+		inter, perKE := k%3 != 0, 8
+		if k%3 == 1 {
+			perKE = 1
+		}
+		c := &client.IPClient{Log: log, InterleavedMode: inter}
 		c.Auth.Enabled = true
 		c.Auth.NTSKEFetcher = *c20NewFetcher(keAddr)
+		p.ke.SetScript(func(kc *peer.NTSKEConn) ([]byte, []int, int) {
+			var cs [][]byte
+			for i := 0; i < perKE; i++ {
+				cs = append(cs, peer.TaggedCookie(kc.ID, i, c11CookieLen))
+			}
+			return peer.KEMessage(15, srvIP.String(), p.srv.Addr.Port(), cs), nil, -1
+		})
+		variant := fmt.Sprintf("after a key exchange that outlived its round,interleaved=%v,cookies per key exchange=%d", inter, perKE)
+		if !inter && perKE == 8 {
+			variant = "after a key exchange that outlived its round"
+		}
 		gate := make(chan struct{})
 		first := true
 		var gmu sync.Mutex
@@ -250,11 +268,11 @@ func c11Overlap(r *ev.Run, p *c11Peer, srvIP netip.Addr, local *net.UDPAddr, keA
 		w := map[string]any{"round2_error": fmt.Sprint(r2.err), "round2_panic": fmt.Sprint(r2.pnc), "round3_error": fmt.Sprint(e3), "round3_panic": fmt.Sprint(p3)}
 		switch {
 		case r2.pnc != nil || p3 != nil:
-			r.Violation("ip-client(NTS)|panic while building or sending a request|after a key exchange that outlived its round", id, w)
+			r.Violation("ip-client(NTS)|panic while building or sending a request|"+variant, id, w)
 		case r2.err == nil && e3 != nil:
-			r.Violation("ip-client(NTS)|wrong-value:successful exchange left the client unable to complete the next one|after a key exchange that outlived its round", id, w)
+			r.Violation("ip-client(NTS)|wrong-value:successful exchange left the client unable to complete the next one|"+variant, id, w)
 		case r2.err == nil:
-			r.Class("overlap:stalled exchange of an earlier round does not disturb the later rounds")
+			r.Class(fmt.Sprintf("overlap:stalled exchange of an earlier round does not disturb the later rounds(interleaved=%v,cookies per key exchange=%d)", inter, perKE))
 		default:
 			r.Class("overlap:round 2 failed (" + firstWord(fmt.Sprint(r2.err)) + ")")
 		}
